@@ -2,18 +2,20 @@
    Statements only; proofs live in Rpc/WfProofs*.v.  The handler model is Rpc/WfModel.v over the body
    front end Rpc/Body.v; the response-shape specification is Rpc/WfSpec.v.  Everything outside C16's
    anchors (Backend.SyncRequest / CallRPC, the wallet, the typed decoding of the transaction, the
-   completion order of a batch's goroutines) is universally quantified. *)
+   completion order of a batch's goroutines, the state of the world [W] they act on) is universally
+   quantified; [sched w n] is the order in which the n member goroutines of a batch finish, and the
+   only thing assumed about it is that each goroutine runs exactly once. *)
 From Coq Require Import String.
 From Coq Require Import List NArith ZArith Bool Lia Permutation.
 From Coq Require Import Init.Byte.
-From FFS Require Import Base.Res Base.Bytes Rpc.Body Rpc.WfModel Rpc.WfSpec Rpc.WfProofs.
+From FFS Require Import Base.Res Base.Bytes Rpc.Body Rpc.WfModel Rpc.WfSpec Rpc.WfProofs Rpc.WfProofs2 Rpc.WfProofs3.
+From FFS Require Rpc.Json Rpc.Model.
+From FFS Require Import Rpc.WfProofsC09.
 Import ListNotations.
 
 (* 1. Whatever the body, its lexer verdict, the state of the world, the backend, the wallet and the
-      completion order of the member goroutines: the handler does not panic -- neither on the request
-      goroutine nor on a batch member's goroutine (where a panic would end the process) -- and returns
-      a reply.  [sched w n] is the order in which the n goroutines of a batch finish; the only
-      hypothesis is that each of them runs exactly once. *)
+      completion order: the handler does not panic -- neither on the request goroutine nor on a batch
+      member's goroutine (where a panic would end the process). *)
 Theorem C16_total :
   forall (W F : Type)
          (sync_request : W -> request -> (option response * bool) * W)
@@ -29,12 +31,154 @@ Theorem C16_total :
 Proof. exact rpcHandler_total. Qed.
 Print Assumptions C16_total.
 
-(* non-vacuity: the in-order schedule satisfies the hypothesis; and the witness of the repaired defect
-   D16a, the body [null], is answered by an array holding one error object (not a dead process) *)
-Example C16_total_nonvacuous :
-  (forall (w : unit) n, Permutation ((fun _ n => seq 0 n) w n) (seq 0 n)) /\
-  exists r, rpcHandler unit unit (fun w q => ((None, true), w)) (fun w _ => (None, w)) (fun w => (None, w))
-              (fun w _ => (None, w)) (fun _ => None) (fun _ => true) (fun _ n => seq 0 n)
-              tt (ascii_bytes "[null]") (Tree (JArr [JNull]))
-            = Ok (mkReply 500 (PBatch [Some r]), tt) /\ r_error r <> None.
-Proof. split; [intros; apply Permutation_refl|]. eexists. split; [vm_compute; reflexivity|discriminate]. Qed.
+(* 2. The handler returns a reply, and it is well-formed (WfSpec.wellformed_reply): one response object
+      -- jsonrpc "2.0", an id member, exactly one of result / error{code,message} -- or a non-empty array
+      of such objects; a parseable batch of n members (behind any amount of whitespace) gets an array
+      of exactly n; an array is only ever the answer to an array body of that length.  Hypothesis on
+      the backend client: SyncRequest hands back a response object of that shape ([sync_wf]); nothing
+      is assumed about CallRPC, the wallet or the decoders. *)
+Theorem C16_wellformed :
+  forall (W F : Type)
+         (sync_request : W -> request -> (option response * bool) * W)
+         (call_nonce : W -> F -> option rpc_error * W)
+         (get_accounts : W -> option (list bytes) * W)
+         (sign : W -> txn_view F -> option bytes * W)
+         (decode_txn : option jv -> option (txn_view F))
+         (parse_from : F -> bool)
+         (sched : W -> nat -> list nat),
+    (forall w n, Permutation (sched w n) (seq 0 n)) ->
+    sync_wf sync_request ->
+    forall (w : W) (body : bytes) (v : verdict),
+    exists rep w',
+      rpcHandler W F sync_request call_nonce get_accounts sign decode_txn parse_from sched w body v = Ok (rep, w') /\
+      wellformed_reply body v rep.
+Proof. exact rpcHandler_answers_wellformed. Qed.
+Print Assumptions C16_wellformed.
+
+(* 3. Requests that cannot be processed are answered with an error object (WfSpec.never_null_reply), with
+      no hypothesis on the backend at all: an unparseable body, a scalar, an empty batch, a batch with a
+      non-object member or an ill-kinded field get one error object; a request without id, an
+      eth_sendTransaction without a usable first parameter, without `from`, or with a malformed `from`
+      gets an error object -- in a batch, in its own slot, next to the answers of the other members
+      (WfSpec.must_fail; a null member is such a request).  Never null, never a missing slot. *)
+Theorem C16_never_null :
+  forall (W F : Type)
+         (sync_request : W -> request -> (option response * bool) * W)
+         (call_nonce : W -> F -> option rpc_error * W)
+         (get_accounts : W -> option (list bytes) * W)
+         (sign : W -> txn_view F -> option bytes * W)
+         (decode_txn : option jv -> option (txn_view F))
+         (parse_from : F -> bool)
+         (sched : W -> nat -> list nat),
+    (forall w n, Permutation (sched w n) (seq 0 n)) ->
+    forall (w : W) (body : bytes) (v : verdict),
+    exists rep w',
+      rpcHandler W F sync_request call_nonce get_accounts sign decode_txn parse_from sched w body v = Ok (rep, w') /\
+      never_null_reply F decode_txn parse_from body v rep.
+Proof. exact rpcHandler_answers_never_null. Qed.
+Print Assumptions C16_never_null.
+
+(* 4. Histories: from any state of the world, any finite sequence of bodies is served to its end without
+      a panic, and every single reply meets clauses 2 and 3 -- the hypotheses of the three theorems above
+      mention no handler state, so nothing a request does can invalidate them for a later one. *)
+Theorem C16_history :
+  forall (W F : Type)
+         (sync_request : W -> request -> (option response * bool) * W)
+         (call_nonce : W -> F -> option rpc_error * W)
+         (get_accounts : W -> option (list bytes) * W)
+         (sign : W -> txn_view F -> option bytes * W)
+         (decode_txn : option jv -> option (txn_view F))
+         (parse_from : F -> bool)
+         (sched : W -> nat -> list nat),
+    (forall w n, Permutation (sched w n) (seq 0 n)) ->
+    sync_wf sync_request ->
+    forall (h : list (bytes * verdict)) (w : W),
+    Forall (fun bv => lexer_coherent (fst bv) (snd bv)) h ->
+    exists reps w',
+      serve W F sync_request call_nonce get_accounts sign decode_txn parse_from sched w h = Ok (reps, w') /\
+      Forall2 (fun bv rep => wellformed_reply (fst bv) (snd bv) rep /\
+                             never_null_reply F decode_txn parse_from (fst bv) (snd bv) rep) h reps.
+Proof. exact serve_history. Qed.
+Print Assumptions C16_history.
+
+(* 5. Totality once more, over the *concrete* model of C09 (Rpc/Model.v, builder b-c09), where
+      Backend.SyncRequest / CallRPC (pkg/rpcbackend after f4f787a, 9edb119), the wallet lookup and the typed
+      decoding of the transaction are modelled instead of abstract: for every backend behaviour (any JSON
+      incl. the literal null, HTTP errors with and without body, connection failures), every lexer, every
+      body and every completion order of the batch it decodes to, the handler does not panic.  Only the
+      signer itself (pkg/fswallet + pkg/ethsigner, C08 / C01) is assumed to return. *)
+Theorem C16_total_concrete_backend :
+  forall (parse_int : bytes -> option Z) (lex : bytes -> option Json.json) (accounts : list bytes)
+         (sign_with : bytes -> Json.transaction -> Z -> res bytes)
+         (backend : Model.frame -> Model.backend_reply) (chain : Z),
+    (forall a t c, sign_with a t c <> Panic) ->
+    forall (body : bytes) (order : list nat),
+      (forall t ms, lex body = Some t -> Json.decode_batch t = Ok ms -> Permutation order (seq 0 (length ms))) ->
+      Model.rpcHandler parse_int lex accounts sign_with backend chain body order <> Panic.
+Proof. exact rpcHandler_total_concrete. Qed.
+Print Assumptions C16_total_concrete_backend.
+
+(* ---- non-vacuity ---- *)
+Definition ex_sync (w : unit) (q : request) : (option response * bool) * unit :=
+  ((Some (mkResp v2_0 (q_id q) (Some (JStr (ascii_bytes "0xabc"))) None), false), tt).
+Definition ex_handler :=
+  rpcHandler unit unit ex_sync (fun w _ => (None, w)) (fun w => (Some [ascii_bytes "0x01"], w))
+             (fun w _ => (None, w))
+             (fun p => match p with Some (JObj _) => Some (mkView (Some tt) false) | _ => None end)
+             (fun _ => false) (fun _ n => rev (seq 0 n)).
+Definition ex_obj (method : string) : jv :=
+  JObj [(ascii_bytes "id", JNum (ascii_bytes "7")); (ascii_bytes "method", JStr (ascii_bytes method))].
+
+(* the hypotheses are met by a concrete world (reverse completion order, a backend answering "0xabc") *)
+Example C16_hypotheses_satisfiable :
+  (forall (w : unit) n, Permutation ((fun _ n => rev (seq 0 n)) w n) (seq 0 n)) /\ sync_wf ex_sync.
+Proof.
+  split.
+  - intros. apply Permutation_sym, Permutation_rev.
+  - intros w q. eexists. split; [reflexivity|]. split; [reflexivity|]. left. simpl. eauto.
+Qed.
+
+(* total + wellformed: 200 blanks, then a batch of a relayed request and a null member (the witnesses of
+   D16d and D16a at once): coherent lexer verdict, parseable batch of 2, answered by an array of 2 *)
+Example C16_wellformed_nonvacuous :
+  let body := repeat x20 200 ++ ascii_bytes "[{""id"":7,""method"":""eth_call""},null]" in
+  let v := Tree (JArr [ex_obj "eth_call"; JNull]) in
+  lexer_coherent body v /\ parseable_batch v = Some 2%nat /\
+  exists r1 r2, ex_handler tt body v = Ok (mkReply 500 (PBatch [Some r1; Some r2]), tt) /\
+                r_result r1 <> None /\ r_error r2 <> None.
+Proof.
+  split; [intros l _; eexists; vm_compute; reflexivity|]. split; [reflexivity|].
+  eexists _, _. split; [vm_compute; reflexivity|]. split; discriminate.
+Qed.
+
+(* never null: the witness of D16b -- eth_sendTransaction whose `from` does not parse, no nonce -- is a
+   request that must fail, and the reply is an error object with the request's id *)
+Example C16_never_null_nonvacuous :
+  let q := mkReq [] (Some (JNum (ascii_bytes "7"))) m_eth_sendTransaction [Some (JObj [(ascii_bytes "from", JStr (ascii_bytes "zz"))])] in
+  let v := Tree (JObj [(ascii_bytes "id", JNum (ascii_bytes "7")); (ascii_bytes "method", JStr m_eth_sendTransaction);
+                       (ascii_bytes "params", JArr [JObj [(ascii_bytes "from", JStr (ascii_bytes "zz"))]])]) in
+  decode_single v = Ok q /\
+  must_fail unit (fun p => match p with Some (JObj _) => Some (mkView (Some tt) false) | _ => None end) (fun _ => false) (Some q) = true /\
+  ex_handler tt (ascii_bytes "{}") v = Ok (mkReply 500 (PSingle (Some (RPCErrorResponse (q_id q) RPCCodeParseError))), tt).
+Proof. split; [vm_compute; reflexivity|]. split; vm_compute; reflexivity. Qed.
+
+(* history: garbage, the body [null], then a valid request -- three replies, the last one a result *)
+Example C16_history_nonvacuous :
+  exists r1 r2 r3,
+    serve unit unit ex_sync (fun w _ => (None, w)) (fun w => (Some [ascii_bytes "0x01"], w)) (fun w _ => (None, w))
+          (fun _ => None) (fun _ => false) (fun _ n => rev (seq 0 n)) tt
+          [(ascii_bytes "\x00garbage", SyntaxError);
+           (ascii_bytes "[null]", Tree (JArr [JNull]));
+           (ascii_bytes "{}", Tree (ex_obj "eth_accounts"))]
+    = Ok ([r1; r2; mkReply 200 (PSingle (Some r3))], tt) /\ status r1 = 400%N /\ status r2 = 500%N /\ r_result r3 <> None.
+Proof. eexists _, _, _. split; [vm_compute; reflexivity|]. repeat split; discriminate. Qed.
+
+(* concrete model: a backend that answers HTTP 200 with the JSON literal null (the witness of D16e / D09c)
+   to a relayed member of a batch: the handler returns HTTP 500 *)
+Example C16_total_concrete_nonvacuous :
+  let tree := Json.JArr [Json.JObj [(ascii_bytes "id", Json.JNum (ascii_bytes "1")); (ascii_bytes "method", Json.JStr (ascii_bytes "eth_call"))]] in
+  exists r fr,
+    Model.rpcHandler (fun _ => None) (fun _ => Some tree) [] (fun _ _ _ => Err 3%nat)
+                     (fun _ => Model.BHttp 200 (Model.BJson Json.JNull)) 1%Z (ascii_bytes "[x]") [0%nat]
+    = Ok (500%N, r, fr).
+Proof. eexists _, _. vm_compute. reflexivity. Qed.
